@@ -290,6 +290,53 @@ def run(R, env):
                                 verdicts.append(ok2)
                         if verdicts and all(verdicts):
                             how = "guarded / justified at every call site"
+                    if how is None and den[0] == "param" and b.kind == "fn":
+                        # relational form: the helper returns early unless some argument N is non-zero, and every caller
+                        # has established den >= N before the call: den >= N > 0
+                        nz_args = []
+                        for a_ in args:
+                            if a_[0] == "param" and a_ != den:
+                                wz = c.assume_bool(lambda x, a_=a_: x[0] == "call" and x[1].endswith("::is_zero") and x[2] and norm(x[2][0]) == norm(a_), True).settle()
+                                if bi not in wz.T.reach:
+                                    nz_args.append(a_)
+
+                        def caller_ok(key, di_, ni_, depth_=2):
+                            vs = []
+                            for cb2 in prog.fn_bodies():
+                                if "::tests::" in cb2.key or cb2.crate not in ("staking", "treasury", "milky_way"):
+                                    continue
+                                for cbi, ct in cb2.calls():
+                                    if ct.get("rkey") != key:
+                                        continue
+                                    if (cb2.key, nm.split("::")[-1]) in RATIO_JUSTIFIED:
+                                        vs.append(True)
+                                        continue
+                                    cc2 = Ctx(cb2)
+                                    ix = len(cb2.blocks[cbi]["stmts"])
+                                    aD, aN = cc2.T.operand(ct["args"][di_], cbi, ix), cc2.T.operand(ct["args"][ni_], cbi, ix)
+                                    if aD[0] == "param" and aN[0] == "param" and depth_ > 0 and cb2.kind == "fn":
+                                        vs.append(caller_ok(cb2.key, aD[1] - 1, aN[1] - 1, depth_ - 1))  # a wrapper that passes its own arguments on
+                                        continue
+                                    rem_, n_ = set(), 0
+                                    for abi, atom in cc2.atoms():
+                                        if atom[0] != "bool":
+                                            continue
+                                        rel = cmp_rel(atom[1], lambda x: norm(x) == norm(aD), lambda y: norm(y) == norm(aN))
+                                        if rel is None:
+                                            continue
+                                        n_ += 1
+                                        val = "<" in rel
+                                        for tg in atom[2][not val]:
+                                            if tg not in atom[2][val]:
+                                                rem_.add((abi, tg))
+                                    w2 = cc2.with_removed(rem_).settle()
+                                    vs.append(n_ >= 1 and cbi not in w2.T.reach)
+                            return bool(vs) and all(vs)
+
+                        for N_ in nz_args:
+                            if caller_ok(k, den[1] - 1, N_[1] - 1):
+                                how = "den >= N established by every caller and N != 0 here"
+                                break
                     if how is None:
                         # the denominator is a field of an argument / of the receiver (`self.batch_total_liquid_stake`
                         # in a method of the batch, possibly inside its closure): the helper is as safe as its callers,
